@@ -1,7 +1,7 @@
 //! C16 — master-server filters are encoded faithfully and paging is complete.
 #![allow(unused_imports)]
 
-use crate::c02::Enc;
+use crate::common::Enc;
 use crate::common::*;
 use crate::silent::*;
 use gamedig::valve_master_server::verif_unit::{construct_payload, filters_to_bytes};
